@@ -132,9 +132,11 @@ func buildList(specs []cueSpec) *builtList {
 		}
 		if i%3 != 2 {
 			// a speaker on the first line: part of the content every operation must carry along
-			it.Lines[0].VoiceName = fmt.Sprintf("voice%d", i%2)
+			if len(it.Lines) > 0 {
+				it.Lines[0].VoiceName = fmt.Sprintf("voice%d", i%2)
+			}
 		}
-		if i%4 != 3 {
+		if i%4 != 3 && len(it.Lines) > 0 {
 			// an inline timestamp (WebVTT) on the last run of the last line: content like any other
 			ll := &it.Lines[len(it.Lines)-1]
 			ll.Items[len(ll.Items)-1].StartAt = time.Duration(c.E) - time.Duration(i%2)*time.Millisecond
@@ -156,6 +158,10 @@ func buildList(specs []cueSpec) *builtList {
 
 // textLines: "a|b" gives two lines; each line one run.
 func textLines(t string) []astisub.Line {
+	if t == "~" {
+		// a cue without any line (no text at all; "" is a cue with one empty line: the same text, another structure)
+		return nil
+	}
 	var ls []astisub.Line
 	for _, l := range strings.Split(t, "|") {
 		ln := astisub.Line{}
@@ -169,7 +175,12 @@ func textLines(t string) []astisub.Line {
 }
 
 // textKey is the text a cue shows, whatever its split into runs.
-func textKey(t string) string { return strings.ReplaceAll(t, "+", "") }
+func textKey(t string) string {
+	if t == "~" {
+		return ""
+	}
+	return strings.ReplaceAll(t, "+", "")
+}
 
 // timeline is a cheap fingerprint of a list: which cue objects, in which order, with which boundaries and text.
 func timeline(s *astisub.Subtitles) string {
